@@ -24,7 +24,7 @@ SPEC = {
          "eval": "fun c => let '(n, s, i) := c in check_order n s i", "per_shard": 400},
     ],
     "classes": {1: "get-operation-name-ignored", 2: "positional-array-accepted", 3: "operations-part-multipart-type-panics"},
-    "n_quick": 400, "n_thorough": 12000,
+    "n_quick": 400, "n_thorough": 1600,
     "level": "proof",
     "what_violation": "a transport encoding decodes to a different request / a malformed encoding is accepted or panics / batch responses out of order",
     "rule": ("random requests (queries, operation names, variable and extension trees with arbitrary characters incl. control, "
